@@ -1,5 +1,5 @@
 From Coq Require Import NArith List Bool Arith.
-From LTV.C03 Require Import ParamsGen Model Proofs ProofsA ProofsB ProofsC ProofsD.
+From LTV.C03 Require Import ParamsGen Model Proofs ProofsA ProofsB ProofsC ProofsD ProofsE ProofsF.
 Import ListNotations.
 
 Theorem params_ok_now : params_ok = true.
@@ -108,3 +108,40 @@ Theorem handover_dispatches_complete :
     good HS handle rl s0.
 Proof. exact ProofsD.handover_dispatches_complete. Qed.
 Print Assumptions handover_dispatches_complete.
+
+(* decode_spec: on the encoding (independent BEP 3 / BEP 10 encoder `encode_msgs`) of any list of
+   messages that are well-formed for the role and within the limits (2^20 message, 2^15 extension
+   payload, 3 extension types, 32-bit fields), with a handler that does not close, the decoder
+   reports exactly those messages, leaves nothing unread and ends in the IDLE state *)
+Theorem decode_spec :
+  forall (HS : Type) (handle : HS -> msg -> HS * verdict) (rl : role),
+  (forall h m, snd (handle h m) = VCont) ->
+  forall (ms : list wmsg) (h : HS),
+  Forall (wf_wmsg rl) ms ->
+  decode HS handle rl h (encode_msgs ms) =
+  PRes (hfold HS handle h (concat (map denotes ms))) RIdle [] (map EMsg (concat (map denotes ms))).
+Proof. exact ProofsE.decode_spec. Qed.
+Print Assumptions decode_spec.
+
+(* PeerConnectionMetadata (after commit 37af099; before it this was refuted by the witness in
+   corpus/C03/meta.case: a BITFIELD and what was buffered behind it stayed unparsed): the parse that
+   stops at a BITFIELD header loses nothing ... *)
+Theorem metadata_parse_refines :
+  forall (HS : Type) (handle : HS -> msg -> HS * verdict) (rl : role) (budget : nat -> nat)
+         (f : nat) (h : HS) (m : rmode) (l : list N) (h1 : HS) (m1 : rmode) (b1 : list N) (es1 : list effect),
+  (mu m l < f)%nat -> feeds HS handle rl f h m l = PRes h1 m1 b1 es1 ->
+  (forall y, feedx HS handle rl h m (l ++ y) = papp HS es1 (feedx HS handle rl h1 m1 (b1 ++ y))) /\
+  ((exists lft, m1 = RPay KBits lft) \/ good HS handle rl (mk_mst h1 m1 b1 0)).
+Proof. exact ProofsF.feeds_refines. Qed.
+Print Assumptions metadata_parse_refines.
+
+(* ... and the metadata connection's event_read machine, for every handler, recv budget oracle,
+   handed-over prefix and list of segments: a run that ends normally emitted exactly the effects
+   of decoding the whole stream and is in the state decode denotes *)
+Theorem meta_machine_refines_decode :
+  forall (HS : Type) (handle : HS -> msg -> HS * verdict) (rl : role) (budget : nat -> nat)
+         (h : HS) (pre : list N) (segs : list (list N)) (s' : mst HS) (avail' : list N) (es : list effect),
+  run_meta HS handle rl budget h pre segs = MRet s' avail' es ->
+  decode HS handle rl h (pre ++ concat segs) = PRes (m_h s') (m_mode s') (m_buf s') es.
+Proof. exact ProofsF.meta_machine_refines_decode. Qed.
+Print Assumptions meta_machine_refines_decode.
